@@ -26,7 +26,9 @@ RULE = ('every labelled undirected graph on n<=4 nodes (n<=5 thorough) x every k
         's = strength -/+ one ulp and -/+ 2^-30 (strictness of <); kcore_bu/kcore_bd/kcoreness on WEIGHTED matrices '
         '(entries from {1/4,1/2,2,3,5,-1,-3/2}: output values compared, not only the support), all symmetric 3x3 / all 2x2 '
         'matrices over {0,2,-1/2}; self-loops (nonzero diagonal) for the three core routines; every kcore_b? case is run '
-        'with peel=True (4-tuple) AND through the 2-tuple path (peel=False explicit / argument omitted, alternating); '
+        'with a TRUE peel flag (4-tuple) AND through the 2-tuple path (a FALSE flag passed explicitly / argument omitted, alternating); '
+        'the flag is spelled in rotation True, 1, np.True_, np.bool_(1) and False, 0, np.False_ (per function; histogram '
+        'kcore_b?:flag:*) - every spelling must give the same tuple, peel order and level list; '
         'float, int and bool dtype; n=0; slices with n in 10..30 (independent min-degree-removal coreness oracle); '
         'asymmetric input to kcoreness_centrality_bu with a reciprocal pair (oracle = the symmetrised graph); '
         'score_wu on DECIMAL weights (0.1, 0.3, 0.7, ...; non-dyadic) with s bit-equal to a binary64 strength met while peeling '
@@ -285,6 +287,10 @@ def fsubset_core(Wf, s):
 
 
 # ---------------------------------------------------------------- the check
+# the peel flag in every spelling a caller may use for a documented bool: the singleton, a Python int, NumPy's bool scalar (a flag read
+# from an array / np.any(...) / a loaded configuration; np.bool_(1) is the same object as np.True_, listed for the record)
+FLAG_TRUE = [('True', True), ('1', 1), ('np.True_', np.True_), ('np.bool_(1)', np.bool_(1))]
+FLAG_FALSE = [('False', False), ('0', 0), ('np.False_', np.False_)]
 FN = {'bu': 'kcore_bu', 'bd': 'kcore_bd', 'wu': 'score_wu'}
 WHICH = {'bu': 0, 'bd': 1, 'wu': 2}
 
@@ -295,6 +301,7 @@ def run(ctx):
     lines, pend = [], []
     ocache = {}
     toggle = [0]
+    flagc = {'kcore_bu': [0, 0], 'kcore_bd': [0, 0]}      # per function: how many calls with a true / a false flag so far (rotates the spelling)
 
     def oracle_core(kind, W, k, exhaustive):
         key = (kind, tuple(tuple(r) for r in W), k)
@@ -326,8 +333,13 @@ def run(ctx):
         A0 = A.copy()
         peel = (kind != 'wu') and mode == 'peel'
         case = {'fn': fn, 'W': sW(W), 'k': str(k)}
+        flag = None
+        if kind != 'wu' and mode != 'default':
+            c = flagc[fn]; tab = FLAG_TRUE if mode == 'peel' else FLAG_FALSE
+            flag = tab[c[mode != 'peel'] % len(tab)]; c[mode != 'peel'] += 1
+            ctx.count('%s:flag:%s' % (fn, flag[0]))
         if kind != 'wu':
-            case['call'] = {'peel': 'f(W, k, True)', 'false': 'f(W, k, peel=False)', 'default': 'f(W, k)'}[mode]
+            case['call'] = {'peel': 'f(W, k, %s)', 'false': 'f(W, k, peel=%s)', 'default': 'f(W, k)%s'}[mode] % (flag[0] if flag else '')
         if dtype != 'float':
             case['dtype'] = dtype
         kk = int(k) if (F(k).denominator == 1 and kind != 'wu') else float(k)
@@ -337,9 +349,9 @@ def run(ctx):
             if kind == 'wu' or mode == 'default':
                 out = call(impl[kind], A, kk)
             elif mode == 'false':
-                out = call(impl[kind], A, kk, peel=False)
+                out = call(impl[kind], A, kk, peel=flag[1])
             else:
-                out = call(impl[kind], A, kk, True)
+                out = call(impl[kind], A, kk, flag[1])
         except Timeout:
             ctx.fail(fn + ':terminates', 'no result within 5 s', case)
             ctx.case(case, nontrivial=True)
